@@ -398,11 +398,13 @@ def coq_case(case, res):
 
 def run(ctx):
     ok1 = ctx.obligations_stage(PROPS, extra_targets=['C14/Examples.vo'])
+    ctx.obligations_stage('C14/Props2.v', extra_targets=['C14/Examples2.vo'])
     ctx.assumptions += [
         'model: hand transcription of Multipatch.join_dofs/join_boundaries/finalize/patch_to_global_idx '
         '(assemble.py) and slice_indices/boundary_dofs into Gallina (coq/C14/Model.v, coq/lib/Slice.v)',
         'tie: exact comparison of numdofs and every patch_to_global_idx array, model evaluated by vm_compute',
-        'not modelled: geometric matching by np.allclose in detect_interfaces/_check_geo_match; scipy sparse formats',
+        'histories with finalize() between joins: model coq/C14/ModelFin.v (finalize_st/compact), tied exactly after every finalize (harness/props/c14_fin.py)',
+        'detect_interfaces/_check_geo_match: exact-data model coq/C14/ModelGeo.v with theorems (Props2.v) but NOT yet tied to the implementation by case files (np.allclose vs exact equality); the implementation side is checked by the geometric tie below; scipy sparse formats not modelled',
     ]
     cases, dist = gen_cases(ctx)
     log('[C14] %d histories: %s' % (len(cases), dist))
@@ -460,6 +462,9 @@ def run(ctx):
                    'model and implementation number the dofs differently' + (': ' + bad[1] if bad else
                    ' (closure property still holds on this history: the numbering convention changed)'),
                    {'shapes': c['shapes'], 'joins': c['joins'], 'impl': r}, found_input=bool(bad))
+    # histories with finalize() between the joins: property after EVERY finalize + exact tie (ModelFin.observe_h)
+    from harness.props import c14_fin
+    c14_fin.run_fin(ctx, check_property_on_impl, grid_complex, ring_complex, swap_sides)
     # geometric tie (automatch, assemble_system, multipatch BCs) on the implementation
     gcases = gen_geo_cases(ctx)
     gres = ctx.impl.run('harness/impl/c14_geo_driver.py', {'cases': gcases})['results']
@@ -482,6 +487,6 @@ def run(ctx):
 
 META = {
     'technique': 'Rocq proof by induction over arbitrary join histories (invariant: class label equality <-> equivalence closure) + exact correspondence of numdofs/patch_to_global_idx with the implementation',
-    'level_text': 'Theorems (Coq, unbounded): for every patch count, sizes and every list of dof identifications / join_boundaries calls in any order with repetitions and flips, the model assigns equal global indices iff the dofs are connected by a chain of identifications (glue_is_closure, glue_is_closure_boundaries, join_order_irrelevant), the numbering maps into and onto range(numdofs) (glob_in_range, glob_gapfree; for histories of join_boundaries calls on valid faces without any hypothesis on the identifications: boundary_joins_pair_existing_dofs, glob_gapfree_boundaries), patch_to_global has one unit entry per local dof and P^T P = I iff no two local dofs of the patch are identified (p2g_*); the accumulation loop of assemble_system yields the sum of the patch bilinear forms / functionals of the restrictions u o glob_p (assemble_system_bilinear_form, assemble_system_rhs_functional, p2g_congruence_entry). The model is tied to /repo by running the same ~900 (thorough ~10^4) join histories through Multipatch and comparing numdofs and every patch_to_global_idx array exactly; the closure property is also evaluated directly on the implementation with a union-find oracle; a geometric tie (conforming box decompositions with reversed parametrisations, rings of annulus sectors where two patches share two faces) checks detect_interfaces against the coinciding faces, gluing by physical location, assemble_system consistency and Multipatch.compute_dirichlet_bcs.',
-    'level_note': 'Trusted: Coq kernel + vm_compute; hand transcription of Multipatch.join_dofs/finalize/patch_to_global_idx and slice_indices into Gallina, validated by the exact correspondence run; harness generators. Not modelled: detect_interfaces geometric matching (np.allclose), assemble_system numerics (rests on C01/C09).',
+    'level_text': 'Theorems (Coq, unbounded): for every patch count, sizes and every list of dof identifications / join_boundaries calls in any order with repetitions and flips, the model assigns equal global indices iff the dofs are connected by a chain of identifications (glue_is_closure, glue_is_closure_boundaries, join_order_irrelevant), the numbering maps into and onto range(numdofs) (glob_in_range, glob_gapfree; for histories of join_boundaries calls on valid faces without any hypothesis on the identifications: boundary_joins_pair_existing_dofs, glob_gapfree_boundaries), patch_to_global has one unit entry per local dof and P^T P = I iff no two local dofs of the patch are identified (p2g_*); the accumulation loop of assemble_system yields the sum of the patch bilinear forms / functionals of the restrictions u o glob_p (assemble_system_bilinear_form, assemble_system_rhs_functional, p2g_congruence_entry); the closure / range / gap-free / left-inverse theorems also for histories with finalize() calls at arbitrary positions between the joins (*_interleaved_finalize, finalize_positions_irrelevant); for the exact-data model of detect_interfaces: a face pair is matched iff the sampled faces coincide under some flip, the returned flip is the first such and the dof pairs join_boundaries identifies with it carry coinciding points, soundness/completeness of the interface list (geo_match_*, automatch_joins_coinciding_dofs, detect_interfaces_sound/_complete/_iff). The model is tied to /repo by running the same ~900 (thorough ~10^4) join histories through Multipatch and comparing numdofs and every patch_to_global_idx array exactly; ~650 join/finalize histories (2x2 all orders x all finalize placements, strips, 2x3, rings, 3D with flips) are compared after EVERY finalize; the closure property is also evaluated directly on the implementation with a union-find oracle (after every finalize, on the joins declared so far); a geometric tie (conforming box decompositions with reversed parametrisations, rings of annulus sectors where two patches share two faces) checks detect_interfaces against the coinciding faces, gluing by physical location, assemble_system consistency and Multipatch.compute_dirichlet_bcs.',
+    'level_note': 'Trusted: Coq kernel + vm_compute; hand transcription of Multipatch.join_dofs/finalize/patch_to_global_idx and slice_indices into Gallina, validated by the exact correspondence run; harness generators. Histories with finalize() between the joins are modelled (ModelFin.v) and tied exactly after every finalize. detect_interfaces has an exact-data model with theorems (ModelGeo.v, Props2.v) that is not yet tied by case files (np.allclose vs exact equality); assemble_system numerics rest on C01/C09.',
 }
